@@ -429,6 +429,36 @@ impl UserRx {
         Ok(flushed_bytes)
     }
 
+    /// The connection is ending: hand everything that is already in order (and was acknowledged to
+    /// the peer) over to the read half, even beyond the queue's capacity. The bytes are held in
+    /// memory anyway; dropping them here would lose acknowledged data for a slow reader.
+    pub fn flush_on_close(&mut self) {
+        let mut flushed = false;
+        while self
+            .ooq
+            .send_front_if_fits(usize::MAX, |msg| {
+                let mut g = self.shared.locked.lock();
+                if g.reader_dropped {
+                    return Err(msg);
+                }
+                g.queue.push_back(match msg {
+                    OoqMessage::Payload(payload) => UserRxMessage::Payload(payload),
+                    OoqMessage::Eof => UserRxMessage::Eof,
+                });
+                Ok(())
+            })
+            .is_some()
+        {
+            flushed = true;
+        }
+        if flushed {
+            let waker = self.shared.locked.lock().reader_waker.take();
+            if let Some(w) = waker {
+                w.wake();
+            }
+        }
+    }
+
     /// Enqueue an error into read half to be consumed by the user.
     pub fn enqueue_error(&self, msg: String) {
         let mut g = self.shared.locked.lock();
